@@ -47,6 +47,9 @@ pub struct Params {
     /// domainNumber of every instance in the run
     #[serde(default)]
     pub domain: u8,
+    /// KalmanConfiguration::steer_time in seconds (0 = the default configuration, 2 s)
+    #[serde(default)]
+    pub steer_time_s: f64,
 }
 
 pub struct Outcome {
@@ -101,7 +104,7 @@ pub fn clean_class_deadlines(p: &Params) -> Option<(f64, f64)> {
     }
     // with a second master on the segment the slave may follow that one first (it announces
     // earlier); the calibration was made without it, so only the generic bound applies
-    if p.second_master > 0 || p.bc_p2p_sibling {
+    if p.second_master > 0 || p.bc_p2p_sibling || p.steer_time_s > 0.0 {
         return None;
     }
     if !(-3..=1).contains(&p.log_sync) || !(-3..=1).contains(&p.log_delay) {
@@ -154,7 +157,11 @@ pub fn simulate(p: &Params, horizon_s: f64) -> Outcome {
     sb.log_sync = p.log_sync;
     sb.domain = p.domain;
     sb.log_delay = p.log_delay;
-    sb.filter = Some(FilterCfg::Kalman(KalmanConfiguration::default()));
+    let mut kcfg = KalmanConfiguration::default();
+    if p.steer_time_s > 0.0 {
+        kcfg.steer_time = statime::time::Duration::from_seconds(p.steer_time_s);
+    }
+    sb.filter = Some(FilterCfg::Kalman(kcfg));
     sb.clock = Some(sclock.clone());
     sb.seed = p.seed ^ 2;
     if p.bc_p2p_sibling {
@@ -293,6 +300,7 @@ pub fn gen_params(rng: &mut StdRng, i: u64) -> Params {
         second_master_off_s: [0.001, -0.004, 0.3, -1.7][rng.gen_range(0..4)] * rng.gen_range(0.5..1.0),
         bc_p2p_sibling: false,
         domain: [0u8, 0, 0, 1, 24, 127, 255][rng.gen_range(0..7)],
+        steer_time_s: [0.0f64, 0.0, 0.0, 0.0, 0.0, 0.5, 0.75, 1.5, 3.25][rng.gen_range(0..9)],
     };
     let mut p = p;
     if p.second_master == 0 && rng.gen_bool(0.2) {
@@ -330,6 +338,9 @@ pub fn run_case(rep: &mut Report, p: &Params, hist: &mut Vec<f64>, conv: &mut Ve
     }
     if p.domain != 0 {
         rep.ev("closed_loop_run_in_a_non_default_domain");
+    }
+    if p.steer_time_s > 0.0 {
+        rep.ev("closed_loop_run_with_non_default_steer_time");
     }
     if let Ok(path) = std::env::var("VP_C02_DUMP") {
         use std::io::Write;
